@@ -254,7 +254,17 @@ class PathCtx:
     def new(self, cls, **fields):
         """an input object with this abstract view; for classes with a registered canonical form the concrete
         representation is produced by the class's real constructor"""
-        from .values import canonical
+        from .values import canonical, INIT_BUILT, interp as cur_interp
+        if cls in INIT_BUILT:
+            a, k = INIT_BUILT[cls]
+            try:
+                o = cur_interp().call(cls, a, dict(k))
+            except RaiseEx as e:
+                raise Unsupported("the real constructor of %s raised %s at %s" % (cls.__name__, e.cls.__name__, e.where))
+            o.fields.update(fields)
+            object.__setattr__(o, "fresh", False)
+            self.objects.append(o)
+            return o
         o = SObj(cls, fields, fresh=False)
         if fields:
             try:
@@ -396,6 +406,14 @@ class NativeCtx:
 
     def new(self, cls, **fields):
         from .spec import canonical_native
+        from .values import INIT_BUILT
+        if cls in INIT_BUILT:
+            a, k = INIT_BUILT[cls]
+            o = cls(*a, **k)
+            for k_, v in fields.items():
+                object.__setattr__(o, k_, v)
+            self.objects.append(o)
+            return o
         o = cls.__new__(cls)
         for k, v in fields.items():
             object.__setattr__(o, k, v)
